@@ -93,7 +93,7 @@ def check(ctx: Ctx) -> str:
         ctx.check(ok, f"compile:encoding:{mode}", "environment:Environment.compile_templates", f"module file written with mode {mode}, encoding {enc}",
                   f"compile_templates writes the generated module with open(..., {mode}{'' if enc is None else ', encoding=' + enc}): Python imports the file as UTF-8, so it must be written as UTF-8 bytes (or text with encoding='utf-8'); with the locale's encoding a template containing non-ASCII text fails to compile or load under a non-UTF-8 locale, while the same template loads from source", ct.loc(c))
     gen = repo.func("environment:Environment._generate")
-    ctx.check("defer_init=defer_init" in ast.unparse(gen.node) and "optimized=self.optimized" in ast.unparse(gen.node), "generate:passes", "environment:Environment._generate", "options passed on", "_generate must pass defer_init and optimized to the code generator", gen.loc())
+    ctx.check("defer_init=defer_init" in gen.ntext and "optimized=self.optimized" in gen.ntext, "generate:passes", "environment:Environment._generate", "options passed on", "_generate must pass defer_init and optimized to the code generator", gen.loc())
     gf = repo.func("loaders:ModuleLoader.get_module_filename")
     gk = repo.func("loaders:ModuleLoader.get_template_key")
     _parts = astq.text_parts
@@ -126,7 +126,7 @@ def check(ctx: Ctx) -> str:
     emitted = {"name": "name = {self.name!r}" in vt, "blocks": "blocks = {{" in vt, "root": "self.func('root')" in vt, "debug_info": "debug_info = {" in vt, "__file__": True}
     ctx.check(all(emitted.get(k, False) for k in read), "namespace:keys", "environment:Template._from_namespace", f"reads {read}", f"_from_namespace reads {read}; the generated module defines {sorted(k for k, v in emitted.items() if v)}", fn.loc(), detail={"read": read})
     fc = repo.func("environment:Template.from_code")
-    s = ast.unparse(fc.node)
+    s = fc.ntext  # (normal form: a local naming code.co_filename is inlined)
     ctx.check("namespace = {'environment': environment, '__file__': code.co_filename}" in s and "exec(code, namespace)" in s, "from_code:namespace", "environment:Template.from_code", "execution namespace", "normally compiled code must be executed with environment and __file__ in its namespace", fc.loc())
     fm = repo.func("environment:Template.from_module_dict")
     ctx.check("cls._from_namespace(environment, module_dict, globals)" in ast.unparse(fm.node), "from_module_dict", "environment:Template.from_module_dict", "same constructor", "precompiled modules must go through the same _from_namespace", fm.loc())
